@@ -499,40 +499,84 @@ def _r4(ctx):
         ctx.holds(mk, mk.node, "slope selector evaluated symbolically through both callers")
 
 
+def scatter_table(prog):
+    """The values the Woehler accessor's validation gives TN and TS for the four cases (TN given?, TS given?), read off the
+    symbolic state at the end of `_validate` (helpers expanded).  -> (FuncInfo, {(tn_missing, ts_missing): (TN term, TS term)},
+    TN-given term, TS-given term)"""
+    from ..absint import Interp, TermDomain, term_select
+    from ..inline import inlined
+    v0 = prog.func(WC + "._validate")
+    v = inlined(prog, v0)
+    it = Interp(prog, TermDomain(), max_depth=3)
+    it.run(v, [("p", q) for q in v.params])
+    states = [st for _, st in it.exits]
+    if len(states) != 1 or "self._TN" not in states[0] or "self._TS" not in states[0]:
+        raise AnalysisError("_validate: the final values of TN / TS were not recognised")
+    tn_t, ts_t = states[0]["self._TN"], states[0]["self._TS"]
+
+    def given(key):
+        return lambda t: isinstance(t, tuple) and len(t) >= 4 and t[0] == "m" and t[2] == "get" and t[3] and t[3][0] == ("c", key)
+    is_tn, is_ts = given("TN"), given("TS")
+    table = {}
+    for a in (False, True):
+        for b in (False, True):
+            def truth(c, a=a, b=b):
+                if isinstance(c, tuple) and len(c) == 4 and c[0] == "cmp" and c[1] == "is" and c[3] == ("c", None):
+                    if is_tn(c[2]):
+                        return a
+                    if is_ts(c[2]):
+                        return b
+                return None
+            table[(a, b)] = (term_select(tn_t, truth), term_select(ts_t, truth))
+    if any(x is None for pair in table.values() for x in pair):
+        raise AnalysisError("_validate: the case analysis on the missing scatter values was not understood")
+    return v0, table, is_tn, is_ts
+
+
 def _r5(ctx):
     prog = ctx.prog
-    ctx.rule("R-C08-5", floor=1, what="TS = TN^(1/k_1) and TN = TS^k_1 are mutual inverses")
-    v = prog.func(WC + "._validate")
-    ts = [s for s in walk_function(v.node) if isinstance(s, ast.Assign) and is_self_attr(s.targets[0], "_TS")
-          and isinstance(s.value, (ast.Call, ast.BinOp)) and any(is_self_attr(n, "_TN") for n in ast.walk(s.value))]
-    tn = [s for s in walk_function(v.node) if isinstance(s, ast.Assign) and is_self_attr(s.targets[0], "_TN")
-          and isinstance(s.value, (ast.Call, ast.BinOp)) and any(is_self_attr(n, "_TS") for n in ast.walk(s.value))]
-    if len(ts) != 1 or len(tn) != 1:
-        raise AnalysisError("_validate: TN/TS conversions not found")
+    ctx.rule("R-C08-5", floor=1, what="TS = TN^(1/k_1) and TN = TS^k_1 are mutual inverses, each derived only when it is missing")
+    from ..absint import term_to_nf
+    v, table, is_tn, is_ts = scatter_table(prog)
 
-    def atom(e):
-        if is_self_attr(e, "_TN"):
-            return "TN"
-        if is_self_attr(e, "_TS"):
-            return "TS"
-        return _atom(e)
+    from ..absint import term_to_ast
+
+    def named(t, ts_as=None):
+        if is_tn(t):
+            return ("p", "TN")
+        if is_ts(t):
+            return ts_as if ts_as is not None else ("p", "TS")
+        if isinstance(t, tuple) and len(t) == 3 and t[0] == "attr" and t[2] == "k_1":
+            return ("p", "k1")
+        return tuple(named(x, ts_as) if isinstance(x, tuple) else x for x in t) if isinstance(t, tuple) else t
+
+    def nf_of(t):
+        tr = term_to_ast(_np_power(t))
+        return to_nf(tr, atom=lambda e: e.id if isinstance(e, ast.Name) else None)
+
+    def _np_power(t):
+        if isinstance(t, tuple) and t and t[0] == "call" and t[1] in ("np.power", "np.float_power", "pow") and len(t[2]) == 2:
+            return ("op", "**", _np_power(t[2][0]), _np_power(t[2][1]))
+        return tuple(_np_power(x) if isinstance(x, tuple) else x for x in t) if isinstance(t, tuple) else t
     try:
-        ts_of_tn = to_nf(ts[0].value, atom=atom)
-        comp = Translator(atom=lambda e: ts_of_tn if is_self_attr(e, "_TS") else atom(e)).tr(tn[0].value)
-    except NFUnsupported as e:
+        ts_term = named(table[(False, True)][1])
+        ts_of_tn = nf_of(ts_term)
+        comp = nf_of(named(table[(True, False)][0], ts_as=ts_term))
+    except (NFUnsupported, ValueError) as e:
         raise AnalysisError("TN/TS conversion outside the fragment: %s" % e)
     if ts_of_tn == to_nf(parse_expr("TN**(1/k1)")) and comp == RF.sym("TN"):
-        ctx.holds(v, ts[0], "TS = TN^(1/k_1); TN(TS(TN)) == TN")
+        ctx.holds(v, v.node, "TS = TN^(1/k_1); TN(TS(TN)) == TN")
     else:
-        ctx.violated(v, ts[0], "scatter conversions are not mutual inverses: TS(TN) = %r, TN(TS(TN)) = %r" % (ts_of_tn, comp))
-    # which branch computes which
-    for s, missing, given in ((ts[0], "_TS", "_TN"), (tn[0], "_TN", "_TS")):
-        p = getattr(s, "_parent", None)
-        t = norm_text(p.test) if isinstance(p, ast.If) else ""
-        if "self.%s is None" % missing in t:
-            ctx.holds(v, s, "%s derived only when it is missing" % missing)
-        else:
-            ctx.violated(v, s, "%s is recomputed under the condition %r instead of only when it is missing" % (missing, t))
+        ctx.violated(v, v.node, "scatter conversions are not mutual inverses: TS(TN) = %r, TN(TS(TN)) = %r" % (ts_of_tn, comp),
+                     text="scatter conversions")
+    # a given value is kept, a missing pair becomes 1.0
+    keep = [("TN", table[(False, False)][0], is_tn), ("TS", table[(False, False)][1], is_ts),
+            ("TN", table[(False, True)][0], is_tn), ("TS", table[(True, False)][1], is_ts)]
+    bad = [n for n, t, pred in keep if not pred(t)]
+    if not bad:
+        ctx.holds(v, v.node, "a given scatter value is kept as given: the other one is derived only when it is missing")
+    else:
+        ctx.violated(v, v.node, "%s is recomputed although it is given" % sorted(set(bad)), text="scatter recomputed")
 
 
 def _fold_const(e, module_consts=None):
